@@ -18,6 +18,10 @@ type c14Stream struct {
 	Sizes  []int `json:"sizes"`           // messages written before Close, per cycle reused
 	Cycles int   `json:"cycles"`          // close/reopen cycles
 	GapMs  int   `json:"gapms,omitempty"` // pause between the first and the second half of the writes of a cycle
+	// PPIs: payload protocol identifiers of successive messages (cyclic; 50 = DCEP, always sent
+	// ordered and reliably); Switch: the ordering is flipped between the two halves of a cycle
+	PPIs   []int `json:"ppis,omitempty"`
+	Switch bool  `json:"switch,omitempty"`
 }
 
 type c14Scn struct {
@@ -51,6 +55,13 @@ func genC14(rt *rapid.T) c14Scn {
 		for k := 0; k < nm; k++ {
 			st.Sizes = append(st.Sizes, rapid.SampledFrom([]int{1, 50, 1200, 3000, lim}).Draw(rt, "size"))
 		}
+		if rapid.IntRange(0, 2).Draw(rt, "mixed") == 0 {
+			np := rapid.IntRange(1, 3).Draw(rt, "nppi")
+			for k := 0; k < np; k++ {
+				st.PPIs = append(st.PPIs, rapid.SampledFrom([]int{53, 50, 50, 51}).Draw(rt, "ppi"))
+			}
+			st.Switch = rapid.IntRange(0, 2).Draw(rt, "switch") == 0
+		}
 		x.Streams = append(x.Streams, st)
 	}
 	x.Other = rapid.IntRange(0, 3).Draw(rt, "other")
@@ -63,6 +74,13 @@ func genC14(rt *rapid.T) c14Scn {
 		x.Rules = append(x.Rules, vfRule{Side: 0, Kind: "type", Type: wtRECONFIG, J: j}, vfRule{Side: 1, Kind: "type", Type: wtRECONFIG, J: j})
 	}
 	return x
+}
+
+func c14PPI(st c14Stream, i int) uint32 {
+	if len(st.PPIs) == 0 {
+		return 53
+	}
+	return uint32(st.PPIs[i%len(st.PPIs)])
 }
 
 func runC14(t *testing.T, x c14Scn, verbose bool) vfCase {
@@ -162,8 +180,8 @@ func runC14(t *testing.T, x c14Scn, verbose bool) vfCase {
 						h.s.SetReliabilityParams(true, ReliabilityTypeReliable, 0)
 					}
 					l.w = h.s
-					for _, sz := range st.Sizes[:len(st.Sizes)/2] {
-						w := s.doWrite(st.Side, uint16(st.SID), sz, 53)
+					for mi, sz := range st.Sizes[:len(st.Sizes)/2] {
+						w := s.doWrite(st.Side, uint16(st.SID), sz, c14PPI(st, mi))
 						if w.Err != "" {
 							c.fail("write-failed", "cycle %d: write on reopened stream %d failed: %s", cyc, st.SID, w.Err)
 							return
@@ -184,8 +202,11 @@ func runC14(t *testing.T, x c14Scn, verbose bool) vfCase {
 				}
 				for _, l := range ls {
 					st := l.st
-					for _, sz := range st.Sizes[len(st.Sizes)/2:] {
-						w := s.doWrite(st.Side, uint16(st.SID), sz, 53)
+					if st.Switch {
+						l.w.SetReliabilityParams(!st.Unord, ReliabilityTypeReliable, 0)
+					}
+					for mi, sz := range st.Sizes[len(st.Sizes)/2:] {
+						w := s.doWrite(st.Side, uint16(st.SID), sz, c14PPI(st, len(st.Sizes)/2+mi))
 						if w.Err != "" {
 							c.fail("write-failed", "cycle %d: write on reopened stream %d failed: %s", cyc, st.SID, w.Err)
 							return
@@ -244,7 +265,7 @@ func runC14(t *testing.T, x c14Scn, verbose bool) vfCase {
 						return
 					}
 					k := vfStreamKey{l.st.Side, uint16(l.st.SID), cyc}
-					if l.st.Unord {
+					if l.st.Unord || l.st.Switch {
 						if m, _ := vfCheckSubset(k, l.writes, l.got, false); m != "" || len(l.got) != len(l.writes) {
 							c.fail("close-lost-data", "cycle %d: unordered stream %d: %d of %d messages before EOF %s", cyc, l.st.SID, len(l.got), len(l.writes), m)
 						}
